@@ -30,7 +30,7 @@ def check(cfg):
 def configs(tier):
   if tier == 'quick':
     return [(('group', 1, 'thread', 'wide'), 0), (('nested_main', 1, 'thread', 'wide'), 0), (('nested_td', 1, 'thread', 'wide'), 0),
-            (('group_deaf', 1, 'thread', 'main'), 0),
+            (('group_deaf', 1, 'thread', 'main'), 0), (('group_deaf0', 1, 'thread', 'main'), 0),
             (('group_in_subtest', 1, 'thread', 'wide'), 0), (('group', 1, 'thread', 'main'), 1), (('group', 1, 'sigint', 'free'), 0)]
   return [(('group', 1, 'thread', 'all'), 1), (('nested_main', 1, 'thread', 'all'), 1), (('nested_td', 1, 'thread', 'all'), 1),
           (('group_in_subtest', 1, 'thread', 'all'), 1), (('group', 1, 'thread', 'body'), 2), (('nested_main', 1, 'thread', 'body'), 2),
